@@ -7,15 +7,65 @@ MODEL_NAME = "ServerFn/ErrorCodec.v, ServerFn/Protocol.v"
 HARNESS = "serverfn"
 HARNESS_ARGS = ["c13"]
 ALLOWED_AXIOMS = []
-READY = False
+READY = True
 RUN_IMPORT = "ServerFn.Run"
 
-RULE = "(filled in below)"
-TRUSTED = []
-ASSUMPTIONS = []
-LEVEL_TEXT = ""
-LEVEL_NOTE = ""
-TECHNIQUE = "Coq proof + differential correspondence of the extracted model with the Rust code"
+RULE = ("cases drawn from one PRNG (VERIF_SEED). COMPARED line by line with the extracted model: op0 ser then de of a "
+        "ServerFnError<NoCustomError|Code(u8)> of any of the ten variants with messages over delimiter-heavy Unicode text; "
+        "op1 de of arbitrary bytes (mutated wire strings, unknown kinds, missing '|', invalid UTF-8, unparsable custom text); "
+        "op2/3 FormatType::Binary text form (STANDARD_NO_PAD) of byte strings and of mutated base64; op4 "
+        "ServerFnUrlError::to_url on absolute base URLs with/without query (stale __err/__path pairs included) and fragment, "
+        "then the pairs a client reads back + decode_err; op5 decode_err of mutated URL-safe base64; op6 strip_error_info; "
+        "op7 the real Http::run_client on canned responses (status sweep 100..999, redirect header, Location, error/plain/"
+        "invalid bodies) incl. redirect-hook calls; op8 the real run_on_server (form-redirects on) on raw requests "
+        "(Accept html or not, Referer absolute URL / relative / absent / non-UTF-8); op9 run_on_client through the loopback "
+        "vs the body called directly. ORACLE-ONLY (serde codecs are assumed, exercised differentially, never modelled): op10 "
+        "remote vs direct for 30 #[server] functions = every input encoding x Json, Json x every output encoding, mixed "
+        "pairs, over nested structs/options/vectors/strings/numbers at range limits and Err results of every variant; "
+        "op11 the same calls under truncate/flip/splice/replace of request or response bytes and status overrides "
+        "(must be a value, never a panic); op12 multipart requests with good/missing/malformed boundary and damaged bodies; "
+        "op13-15 text/byte streams in and out. A case is non-trivial when its payload is non-empty; distinct = distinct case hash.")
+TRUSTED = [
+    "Coq 8.16.1 kernel (coqc; coqchk on the thorough tier); no axioms: all theorems of Properties_C13.v are 'Closed under the global context'",
+    "extraction to OCaml with ExtrOcamlBasic only, ocamlfind ocamlopt 4.13.1, extract/driver.ml sexp I/O",
+    "harness/serverfn (Rust): a loopback Client/ClientReq/ClientRes written for the harness, a Server on /repo's generic Request<Bytes>/Response<Body> "
+    "(newtype delegating every Req method to /repo's impl, because /repo's two generic types cannot be paired directly), "
+    "handler lookup through the inventory registry the #[server] macro fills, futures::executor::block_on",
+    "ASSUMED, not modelled: the serde codecs (serde_json, serde_qs, ciborium, rmp-serde, postcard, rkyv, serde-lite) and multer; in Coq they are "
+    "Section variables with the hypothesis codecs_ok (decode inverts encode on the values involved); their round trips are only "
+    "exercised differentially (ops 10-15) with an oracle, and the check found that assumption false for serde_qs (F-C13-e, open) "
+    "and for serde_json floats before fix 65449d8",
+    "modelled, not verified (transcribed in ServerFn/ErrorCodec.v, compared with the real crates on every case): base64 0.22 general-purpose "
+    "engine (URL_SAFE, STANDARD_NO_PAD incl. every DecodeError and its Display), form_urlencoded byte_serialize/parse, "
+    "url::Url::query_pairs_mut on an absolute URL given by its parts (Url::parse itself is the identity on the generated bases), "
+    "core::str::Utf8Error Display, impl Debug for str (exact for code points < U+0378 and a listed set; compared cases stay inside), "
+    "u8::from_str, usize/u8 Display, http::HeaderValue validity",
+    "Protocol.v models Http<In,Out> over body codecs (Post/Patch/Put<Encoding>, the url codecs); streaming and multipart bodies are "
+    "covered by the oracle only, except the multipart boundary lookup (its panic branch, now an Args error, is in the model)",
+    "the Content-Type/Accept headers a client sends are swapped by every codec's into_req (argument order); they are not part of "
+    "the property and only Accept is modelled (as the input content type, which is what the code sends)",
+]
+ASSUMPTIONS = [
+    "codecs_ok: for the argument and the returned value the (third-party) codec's decode inverts its encode; known to fail for "
+    "serde_qs on empty vectors and empty optional strings (F-C13-e)",
+    "err_ok: error messages are Rust Strings (valid UTF-8) and a custom error's FromStr inverts its Display",
+    "the transport delivers the bytes it was given (loopback); HTTP re-chunking of streamed bodies is not modelled",
+    "a client request never carries 'Accept: text/html' (only a browser form post does)",
+    "f64 NaN/infinity are outside the generated domain (JSON cannot carry them)",
+]
+LEVEL_TEXT = ("Coq proofs, for every error variant / message / custom error type, every byte string, every base URL and every "
+              "status code, that an error survives the 'Kind|message' wire format and the base64-in-URL form, that the decoders "
+              "are total and accept only canonical forms, and that client(transport(server(x))) = body(x) for Ok and Err under the "
+              "stated codec hypothesis — about an executable Gallina transcription of server_fn's error.rs, the protocol glue of "
+              "lib.rs and the generic request/response code; tied to /repo by running the extracted model and the real code "
+              "(through the public API and the real #[server] macro, loopback transport) on the same thousands of generated "
+              "cases every run, plus an independent Python oracle (remote == direct; decoded == original; corrupted => value, "
+              "not panic) over all codec pairs.")
+LEVEL_NOTE = ("Trusted: Coq kernel, ExtrOcamlBasic extraction + OCaml driver, the Rust harness incl. its loopback transport. Assumed "
+              "(differentially exercised only): every serde codec and multer. Modelled not verified: base64, form_urlencoded, "
+              "str Debug (restricted tables), Utf8Error Display. No axioms. One open finding (serde_qs cannot carry empty "
+              "vectors / empty optional strings), four repaired ones.")
+TECHNIQUE = "Coq proof (induction over byte strings, base64 quads, query pairs) + differential correspondence of the extracted model with the Rust code + oracle over all codec pairs"
 
 KINDS = ["WrappedServerError", "Registration", "Request", "Response", "ServerError", "MiddlewareError",
          "Deserialization", "Serialization", "Args", "MissingArg"]
@@ -261,11 +311,133 @@ def gen_glue(rng):
                 compare=debug_safe(body))
 
 
+# ------------------------------------------------------------------ typed values (ops 10, 11)
+PAIRS = ["json_json", "cbor_json", "msgpack_json", "postcard_json", "rkyv_json", "serdelite_json", "geturl_json",
+         "posturl_json", "deleteurl_json", "patchurl_json", "puturl_json", "patchjson_json", "putjson_json", "json_cbor",
+         "json_msgpack", "json_postcard", "json_rkyv", "json_serdelite", "json_patchjson", "json_putjson", "cbor_cbor",
+         "msgpack_msgpack", "postcard_postcard", "rkyv_rkyv", "serdelite_serdelite", "geturl_cbor", "posturl_rkyv",
+         "rkyv_postcard", "patchcbor_putcbor", "putcbor_msgpack"]
+URL_INPUT = {i for i, p in enumerate(PAIRS) if p.split("_")[0].endswith("url")}
+
+
+def u64(v):
+    return [v >> 32, v & 0xFFFFFFFF]
+
+
+def f64_bits(x):
+    import struct
+    return u64(struct.unpack(">Q", struct.pack(">d", x))[0])
+
+
+def gen_f64(rng):
+    import sys
+    return rng.choice([0.0, -0.0, 1.0, -1.5, 0.1, 1e300, -1e-300, sys.float_info.max, sys.float_info.min, 5e-324,
+                       2.0 ** 53, 2.0 ** 53 + 2, 3.141592653589793, 1 / 3, rng.uniform(-1e6, 1e6), rng.random(),
+                       rng.uniform(-1, 1) * 10 ** rng.randint(-300, 300)])
+
+
+def gen_str(rng, maxlen=8):
+    return text(rng, maxlen, any_char if rng.random() < 0.4 else safe_char)
+
+
+def gen_inner(rng):
+    x = rng.choice([0, 1, -1, 2 ** 31 - 1, -2 ** 31, rng.randint(-2 ** 31, 2 ** 31 - 1)])
+    opt = [] if rng.random() < 0.4 else [C.norm(gen_str(rng, 5))]
+    return [x, C.norm(gen_str(rng, 5)), opt]
+
+
+def gen_val(rng):
+    return [
+        u64(rng.choice([0, 1, 2 ** 32, 2 ** 53, 2 ** 53 + 1, 2 ** 63, 2 ** 64 - 1, rng.getrandbits(64)])),
+        u64(rng.choice([0, -1, 2 ** 63 - 1, -2 ** 63, -(2 ** 53) - 1, rng.randint(-2 ** 63, 2 ** 63 - 1)]) % 2 ** 64),  # i64, two's complement
+        rng.choice([0, 1, 127, 128, 254, 255, rng.randint(0, 255)]),
+        rng.choice([0, 1]),
+        f64_bits(gen_f64(rng)),
+        C.norm(gen_str(rng, 10)),
+        gen_inner(rng),
+        [gen_inner(rng) for _ in range(rng.choice([0, 1, 1, 2, 3]))],
+        [C.norm(gen_str(rng, 5)) for _ in range(rng.choice([0, 1, 2, 2, 4]))],
+        [] if rng.random() < 0.4 else [gen_inner(rng)],
+    ]
+
+
+def gen_plan(rng):
+    if rng.random() < 0.55:
+        return [0, []]
+    return [rng.randint(1, 10), C.norm(gen_str(rng, 8))]
+
+
+def gen_edit(rng):
+    r = rng.random()
+    if r < 0.35:
+        return [0, rng.choice([0, 1, 2, 3, 5, 8, 13, 21, 34, 55, rng.randint(0, 200)])]
+    if r < 0.65:
+        return [1, rng.randint(0, 400), rng.choice([1, 2, 4, 8, 16, 32, 64, 128, 255])]
+    if r < 0.9:
+        ins = list(rng.choice([b"", b"\xff", b"\x00", b"|", b"&", b"=", b"%", b"%zz", b"\"", b"}", b"[", b"\xc3", b"null",
+                               b"\xff\xff\xff\xff\xff\xff\xff\xff", bytes(rng.randint(0, 255) for _ in range(rng.randint(1, 6)))]))
+        return [2, rng.randint(0, 300), rng.choice([0, 0, 1, 2, 5, 50]), ins]
+    return [3, list(rng.choice([b"", b"\x00", b"{", b"null", b"[]", b"Args|x", b"\xff\xfe", b"v=1", b"\x80" * 40,
+                                bytes(rng.randint(0, 255) for _ in range(rng.randint(0, 40)))]))]
+
+
+MP_OK_BODY = b"--B\r\nContent-Disposition: form-data; name=\"a\"\r\n\r\nvalue\r\n--B\r\nContent-Disposition: form-data; name=\"f\"; filename=\"x.bin\"\r\nContent-Type: application/octet-stream\r\n\r\n\x00\xff\r\n--B--\r\n"
+MP_CTS = [b"multipart/form-data; boundary=B", b"multipart/form-data", b"multipart/form-data; boundary=", b"text/plain",
+          b"multipart/form-data; boundary=\"B", b"multipart/form-data;boundary=B", b"MULTIPART/FORM-DATA; BOUNDARY=B", b"",
+          b"multipart/form-data; boundary=" + b"x" * 80, b"application/x-www-form-urlencoded", b"multipart/mixed; boundary=B",
+          b"multipart/form-data; charset=utf-8; boundary=B", b";", b"boundary=B"]
+
+
+def gen_typed(rng):
+    r = rng.random()
+    if r < 0.45:
+        return dict(case=[10, rng.randrange(len(PAIRS)), gen_val(rng), gen_plan(rng)], kind="typed-remote-vs-direct",
+                    compare=False)
+    if r < 0.80:
+        where = rng.choice([0, 0, 1, 1, 2])
+        arg = gen_edit(rng) if where < 2 else rng.choice(STATUSES + [rng.randint(100, 999)])
+        return dict(case=[11, rng.randrange(len(PAIRS)), gen_val(rng), gen_plan(rng), where, arg], kind="typed-corrupted",
+                    compare=False)
+    if r < 0.86:
+        ct = rng.choice(MP_CTS)
+        if rng.random() < 0.2:
+            ct = bytes(b for b in (rng.randint(32, 126) for _ in range(rng.randint(0, 30))))
+        body = MP_OK_BODY
+        rr = rng.random()
+        if rr < 0.3:
+            body = body[:rng.randint(0, len(body))]
+        elif rr < 0.5:
+            i = rng.randrange(len(body))
+            body = body[:i] + bytes([body[i] ^ rng.choice([1, 32, 128])]) + body[i + 1:]
+        elif rr < 0.6:
+            body = bytes(rng.randint(0, 255) for _ in range(rng.randint(0, 60)))
+        return dict(case=[12, [] if rng.random() < 0.1 else [list(ct)], list(body)], kind="multipart-server", compare=False)
+    if r < 0.92:
+        chunks = [C.norm(gen_str(rng, 24)) for _ in range(rng.choice([0, 1, 2, 3, 5]))]
+        if rng.random() < 0.4:       # multi-byte characters around the old 16-byte cut
+            chunks.append(C.norm("a" * rng.randint(13, 16) + rng.choice(["é", "€", "😀"]) + "b" * rng.randint(10, 20) + "ü"))
+        return dict(case=[13, chunks], kind="text-stream-echo", compare=False)
+    if r < 0.96:
+        return dict(case=[14, [list(rand_bytes(rng, 40)) for _ in range(rng.choice([0, 1, 2, 3, 6]))]], kind="byte-stream-out",
+                    compare=False)
+    chunks = []
+    for _ in range(rng.choice([0, 1, 2, 3, 5])):
+        if rng.random() < 0.3:
+            chunks.append(C.norm("!" + str(rng.randint(1, 9)) + gen_str(rng, 8)))
+        else:
+            chunks.append(C.norm(gen_str(rng, 12)))
+    return dict(case=[15, chunks], kind="text-stream-out", compare=False)
+
+
 def generate(rng, tier):
     n = 6000 if tier == "quick" else 100000
     for _ in range(n):
-        if rng.random() < 0.3:
+        r0 = rng.random()
+        if r0 < 0.25:
             yield gen_glue(rng)
+            continue
+        if r0 < 0.55:
+            yield gen_typed(rng)
             continue
         r = rng.random()
         if r < 0.22:
@@ -457,6 +629,104 @@ def oracle_glue(case, impl):
     return None
 
 
+def ref_typed_body(val, plan):
+    """the body shared by the typed server functions, written again here"""
+    if plan[0] == 0:
+        v = list(val)
+        v[5] = val[5] + [126]
+        v[2] = (val[2] + 1) % 256
+        v[7] = list(reversed(val[7]))
+        return [0, v]
+    if plan[0] == 10:
+        return [1, [0, list(b"Unit Type Displayed")]]
+    return [1, [plan[0], plan[1]]]
+
+
+def ref_chunk(ch):
+    b = bytes(ch)
+    if len(b) >= 2 and b[0:1] == b"!" and 49 <= b[1] <= 57:
+        return [1, [b[1] - 48, list(b[2:])]]
+    return [0, list(b.upper())]          # bytes.upper(): ASCII letters only
+
+
+def oracle_typed(case, impl):
+    op = case[0]
+    if op == 10:
+        remote, direct = impl
+        if direct != ref_typed_body(case[2], case[3]):
+            return "harness: direct call differs from the reference body"
+        return None if remote == direct else "remote call result differs from the direct call (%s)" % PAIRS[case[1] % len(PAIRS)]
+    if op == 11:
+        # any byte-level fault must surface as a value (Ok if the bytes still decode, else Err): never a panic
+        return None if impl and impl[0] in (0, 1) else "unexpected observation for a corrupted call"
+    if op == 12:
+        status, body = impl
+        if 400 <= status <= 599:
+            try:
+                t = bytes(body).decode()
+            except UnicodeDecodeError:
+                return "error response body is not a wire string"
+            return None if t.split("|", 1)[0] in TAGS else "error response body is not a wire string"
+        return None
+    if op == 13:
+        remote, direct = impl
+        if direct[0] != 0 or remote[0] != 0:
+            return "text stream call failed"
+        def cat(items):
+            return b"".join(bytes(i[1]) for i in items if i[0] == 0)
+        want = b"".join(bytes(ch) for ch in case[1]).upper()
+        if cat(direct[1]) != want:
+            return "harness: direct text stream differs from the reference"
+        if any(i[0] == 1 for i in remote[1]):
+            return "remote text stream reports an error the direct stream does not"
+        return None if cat(remote[1]) == want else "remote text stream carries different text than the direct one"
+    if op == 14:
+        remote, direct = impl
+        if direct != [[0, ch] for ch in case[1]]:
+            return "harness: direct byte stream differs from the reference"
+        return None if remote == direct else "remote byte stream differs from the direct one"
+    if op == 15:
+        remote, direct = impl
+        if direct != [0, [ref_chunk(ch) for ch in case[1]]]:
+            return "harness: direct text stream differs from the reference"
+        return None if remote == direct else "remote text stream (items and errors) differs from the direct one"
+    return None
+
+
+def _diffs(a, b, path=()):
+    if a == b:
+        return []
+    if isinstance(a, list) and isinstance(b, list) and len(a) == len(b) and any(isinstance(x, list) for x in a + b):
+        out = []
+        for i, (x, y) in enumerate(zip(a, b)):
+            out += _diffs(x, y, path + (i,))
+        return out
+    return [(path, a, b)]
+
+
+def classify(item, impl, model):
+    """F-C13-e: serde_qs (the URL-encoded *input* codecs) cannot represent an empty vector (the field is
+    omitted, decoding reports `missing field`) nor an empty optional string (comes back as None)."""
+    case = item["case"]
+    if case[0] != 10 or isinstance(impl, str) or (case[1] % len(PAIRS)) not in URL_INPUT:
+        return None
+    remote, direct = impl
+    val = case[2]
+    if remote[0] == 1:
+        err = remote[1]
+        msg = bytes(err[1])
+        if err[0] == 8 and ((msg == b"missing field `items`" and val[7] == []) or (msg == b"missing field `tags`" and val[8] == [])):
+            return "F-C13-e"
+        return None
+    if direct[0] != 0:
+        return None
+    ds = _diffs(remote[1], direct[1])
+    # every difference is an `opt: Some("")` that arrived as None
+    if ds and all(r == [] and d == [[]] and len(p) >= 2 and p[-1] == 2 for (p, r, d) in ds):
+        return "F-C13-e"
+    return None
+
+
 def oracle(item, impl):
     import base64 as B
     import urllib.parse as U
@@ -504,6 +774,8 @@ def oracle(item, impl):
         return check_de(w, impl)
     if op in (7, 8, 9):
         return oracle_glue(case, impl)
+    if op >= 10:
+        return oracle_typed(case, impl)
     if op == 6:
         _, pre, q, f = case
         before = U.parse_qsl(bytes(q[0]).decode(), keep_blank_values=True, errors="replace") if q else []
@@ -546,6 +818,28 @@ def _is_opt(v, pred):
 
 import string as _string
 QOK = set(_string.ascii_letters + _string.digits + QCH + "_")
+
+
+def _valid_inner(i):
+    return (isinstance(i, list) and len(i) == 3 and isinstance(i[0], int) and -2 ** 31 <= i[0] < 2 ** 31
+            and _is_text(i[1]) and _is_opt(i[2], _is_text))
+
+
+def _valid_u64(v):
+    return isinstance(v, list) and len(v) == 2 and all(isinstance(x, int) and 0 <= x < 2 ** 32 for x in v)
+
+
+def _valid_val(v):
+    if not (isinstance(v, list) and len(v) == 10):
+        return False
+    if not (_valid_u64(v[0]) and _valid_u64(v[1]) and v[2] in range(256)
+            and v[3] in (0, 1) and _valid_u64(v[4]) and _is_text(v[5]) and _valid_inner(v[6])):
+        return False
+    exp = (v[4][0] >> 20) & 0x7FF
+    if exp == 0x7FF:
+        return False                # NaN / infinity are outside the generator's domain
+    return (isinstance(v[7], list) and all(_valid_inner(i) for i in v[7])
+            and isinstance(v[8], list) and all(_is_text(t) for t in v[8]) and _is_opt(v[9], _valid_inner))
 
 
 def valid_case(item):
@@ -596,6 +890,31 @@ def valid_case(item):
                 [r.encode().decode() for r in RAW_REFERERS] + [r + "\ufffd" for r in RAW_REFERERS]
         if op == 9:
             return len(c) == 2 and _is_text(c[1])
+        if op in (10, 11):
+            if not (isinstance(c[1], int) and 0 <= c[1] < len(PAIRS) and _valid_val(c[2]) and
+                    c[3][0] in range(11) and _is_text(c[3][1])):
+                return False
+            if op == 10:
+                return len(c) == 4
+            where, arg = c[4], c[5]
+            if where == 2:
+                return isinstance(arg, int) and 100 <= arg <= 999
+            if where not in (0, 1):
+                return False
+            k = arg[0]
+            if k == 0:
+                return len(arg) == 2 and arg[1] >= 0
+            if k == 1:
+                return len(arg) == 3 and arg[1] >= 0 and 0 < arg[2] < 256
+            if k == 2:
+                return len(arg) == 4 and arg[1] >= 0 and arg[2] >= 0 and _is_bytes(arg[3])
+            return k == 3 and len(arg) == 2 and _is_bytes(arg[1])
+        if op == 12:
+            return len(c) == 3 and _is_opt(c[1], _is_header) and _is_bytes(c[2])
+        if op in (13, 15):
+            return len(c) == 2 and all(_is_text(ch) for ch in c[1])
+        if op == 14:
+            return len(c) == 2 and all(_is_bytes(ch) for ch in c[1])
     except Exception:
         return False
     return False
@@ -641,6 +960,15 @@ def describe(it):
         r = None if not ref else (C.show_bytes(ref[1]) + ("?" + C.show_bytes(ref[2][0]) if ref[2] else "") +
                                   ("#" + C.show_bytes(ref[3][0]) if ref[3] else "")) if ref[0] == 1 else C.bs(ref[1])
         return "POST /api/glue body=%r Accept=%r Referer=%r -> run_on_server" % (C.bs(data), [C.show_bytes(a) for a in acc], r)
+    if case[0] in (10, 11):
+        d = "%s(v=%r, plan=%r)" % ("f_" + PAIRS[case[1] % len(PAIRS)], case[2], (case[3][0], C.show_bytes(case[3][1])))
+        if case[0] == 10:
+            return d + ": run_on_client() through the loopback vs the function called directly"
+        return d + " with transport fault where=%r %r" % (["request", "response", "status"][case[4]], case[5])
+    if case[0] == 12:
+        return "POST upload Content-Type=%r body=%r" % ([C.bs(x) for x in case[1]], C.bs(case[2]))
+    if case[0] in (13, 14, 15):
+        return "%s(%r) remote vs direct" % ({13: "echo_text", 14: "emit_bytes", 15: "text_out"}[case[0]], [C.bs(x) for x in case[1]])
     if case[0] == 9:
         return "Glue{%r}: run_on_client() through the loopback vs the body called directly" % (C.show_bytes(case[1]),)
     if case[0] == 6:
